@@ -96,53 +96,53 @@ def run(ctx) -> None:
         if X is None:
             rep.unrecognised("C15.R2", R, rn.ast, "the result of run() is not bound to a variable")
         else:
-            after = cfg.reach([rn.id], edge_ok=normal)
-            t_int = [t for t in cfg.live_nodes() if t.id in after and t.kind == "test" and isinstance(t.ast, ast.Call) and call_name(t.ast) == "isinstance" and ast.unparse(t.ast.args[0]) == X and ast.unparse(t.ast.args[1]) == "int"]
-            if not t_int:
+            # Exhaustive case analysis on the class of the run() result.  For each case the
+            # returns that remain possible (branch facts) must all be the documented one.
+            from ..dataflow import ReachingDefs
+            from ..facts import Facts
+
+            rrd = ReachingDefs(a, R)
+            facts = Facts(a, R, rrd)
+            after = cfg.reach([d for d, lab in rn.succ if lab not in ("e", "h")], edge_ok=normal)
+            cli_rets = [cfg.nodes[i] for i in sorted(after) if cfg.nodes[i].kind == "stmt" and isinstance(cfg.nodes[i].ast, ast.Return)]
+            warn_nodes = [cfg.nodes[i].id for i in after if any(call_name(cl) == "warn" for cl, _ in a.node_calls(R, cfg, cfg.nodes[i]))]
+            cases = {
+                "int-in-range": (f"isinstance({X}, int) and 0 <= {X} <= 127", "X", False),
+                "int-out-of-range": (f"isinstance({X}, int) and not (0 <= {X} <= 127)", 1, True),
+                "none": (f"not isinstance({X}, int) and {X} is None", 0, False),
+                "other-type": (f"not isinstance({X}, int) and {X} is not None", 1, True),
+            }
+            int_tests = [t for t in cfg.live_nodes() if t.id in after and t.kind == "test" and f"isinstance({X}, int)" in rrd.text(t.id, t.ast)]
+            if not int_tests:
                 rep.violate("C15.R2", R, rn.ast, "the run() result is not tested for being an int")
-            else:
-                ti = t_int[0]
-                int_side = cfg.reach([d for d, lab in ti.succ if lab == "t"], avoid=[ti.id], edge_ok=normal)
-                non_side_start = [d for d, lab in ti.succ if lab == "f"]
-                t_rng = [t for t in cfg.live_nodes() if t.id in int_side and t.kind == "test" and isinstance(t.ast, ast.Compare) and X in names_in(t.ast)]
-                ok_rng = False
-                if t_rng:
-                    tr = t_rng[0]
-                    c = tr.ast
-                    in_range = len(c.ops) == 2 and isinstance(c.ops[0], ast.LtE) and isinstance(c.ops[1], ast.LtE) and is_const(c.left, 0) and ast.unparse(c.comparators[0]) == X and is_const(c.comparators[1], 127)
-                    rep.check("C15.R2", in_range, R, c, "the accepted range is 0 <= code <= 127", f"the accepted range is `{ast.unparse(c)}`")
-                    good = cfg.nodes[[d for d, lab in tr.succ if lab == "t"][0]]
-                    bad = cfg.reach([d for d, lab in tr.succ if lab == "f"], avoid=[tr.id], edge_ok=normal)
-                    ok1 = isinstance(good.ast, ast.Return) and isinstance(good.ast.value, ast.Name) and good.ast.value.id == X
-                    rep.check("C15.R2", ok1, R, good.ast, "row 'int in 0..127' -> that int", "an in-range int is not returned as the status")
-                    bad_rets = [cfg.nodes[i] for i in bad if cfg.nodes[i].kind == "stmt" and isinstance(cfg.nodes[i].ast, ast.Return)]
-                    warned = any(call_name(cl) == "warn" for i in bad for cl, _ in a.node_calls(R, cfg, cfg.nodes[i]))
-                    rep.check("C15.R2", len(bad_rets) == 1 and is_const(bad_rets[0].ast.value, 1) and warned, R, tr.ast, "row 'int outside 0..127' -> 1 + warning", "an out-of-range int does not give status 1 with a warning")
-                    matched |= {"int-in-range", "int-out-of-range"}
-                    ok_rng = True
-                if not ok_rng:
-                    rep.violate("C15.R2", R, ti.ast, "an int result is not range-checked")
-                # non-int side
-                non_side = cfg.reach(non_side_start, avoid=[ti.id], edge_ok=normal)
-                t_none = [t for t in cfg.live_nodes() if t.id in non_side and t.kind == "test" and X in names_in(t.ast)]
-                if not t_none:
-                    rep.violate("C15.R2", R, ti.ast, "a non-int result of run() is not examined (None vs. invalid type)")
-                else:
-                    tn = t_none[0]
-                    e = tn.ast
-                    is_not_none = isinstance(e, ast.Compare) and isinstance(e.ops[0], ast.IsNot) and is_const(e.comparators[0], None) and ast.unparse(e.left) == X
-                    is_none = isinstance(e, ast.Compare) and isinstance(e.ops[0], ast.Is) and is_const(e.comparators[0], None) and ast.unparse(e.left) == X
-                    if not (is_not_none or is_none):
-                        rep.violate("C15.R2", R, e, f"a non-int result is classified by `{ast.unparse(e)}` instead of `is None`: falsy non-int results ('' , 0.0, [] ...) are treated like None and exit with status 0")
+            for cname, (cond, want, must_warn) in cases.items():
+                cexpr = ast.parse(cond, mode="eval").body
+                possible = [r for r in cli_rets if facts.possible(r.id, cexpr, True, within=[rn.id])]
+                if not possible:
+                    rep.violate("C15.R2", R, rn.ast, f"no exit of the runner handles a run() result of class '{cname}'")
+                    continue
+                bad = []
+                for r in possible:
+                    v = r.ast.value
+                    if want == "X":
+                        okv = v is not None and rrd.text(r.id, v) == X
                     else:
-                        inv = cfg.reach([d for d, lab in tn.succ if lab == ("t" if is_not_none else "f")], avoid=[tn.id], edge_ok=normal)
-                        inv_rets = [cfg.nodes[i] for i in inv if cfg.nodes[i].kind == "stmt" and isinstance(cfg.nodes[i].ast, ast.Return)]
-                        warned = any(call_name(cl) == "warn" for i in inv for cl, _ in a.node_calls(R, cfg, cfg.nodes[i]))
-                        rep.check("C15.R2", len(inv_rets) == 1 and is_const(inv_rets[0].ast.value, 1) and warned, R, e, "row 'other type' -> 1 + warning", "a non-int, non-None result does not give status 1 with a warning")
-                        none_side = cfg.reach([d for d, lab in tn.succ if lab == ("f" if is_not_none else "t")], avoid=[tn.id], edge_ok=normal)
-                        none_rets = [cfg.nodes[i] for i in none_side if cfg.nodes[i].kind == "stmt" and isinstance(cfg.nodes[i].ast, ast.Return)]
-                        rep.check("C15.R2", len(none_rets) == 1 and is_const(none_rets[0].ast.value, 0), R, e, "row 'None' -> 0", "a None result does not give status 0")
-                        matched |= {"other-type", "none"}
+                        okv = v is not None and is_const(v, want)
+                    warned = bool(warn_nodes) and cfg.all_paths_pass(rn.id, [r.id], warn_nodes, edge_ok=normal)
+                    if not okv or (must_warn and not warned):
+                        bad.append((r, okv, warned))
+                if bad:
+                    r, okv, warned = bad[0]
+                    what = {"int-in-range": "an int in 0..127 must be returned as the status", "int-out-of-range": "an int outside 0..127 must give status 1 and a warning", "none": "None must give status 0", "other-type": "a non-int, non-None result must give status 1 and a warning (falsy values such as '' or 0.0 included)"}[cname]
+                    rep.violate("C15.R2", R, r.ast, f"row '{cname}': {what}, but `{ast.unparse(r.ast)}`{'' if warned or not must_warn else ' (without warning)'} is reachable for such a result")
+                else:
+                    rep.hold("C15.R2", R, possible[0].ast, f"row '{cname}' -> {'that int' if want == 'X' else want}{' + warning' if must_warn else ''} ({len(possible)} exit(s) possible for this case, all as documented)")
+                    matched.add(cname)
+            rng = [t for t in cfg.live_nodes() if t.id in after and t.kind == "test" and X in names_in(t.ast) and isinstance(t.ast, ast.Compare) and len(t.ast.ops) == 2]
+            for t in rng:
+                c = t.ast
+                in_range = isinstance(c.ops[0], ast.LtE) and isinstance(c.ops[1], ast.LtE) and is_const(c.left, 0) and is_const(c.comparators[1], 127)
+                rep.check("C15.R2", in_range, R, c, "the accepted range is 0 <= code <= 127", f"the accepted range is `{ast.unparse(c)}`")
     # non-CLI
     if wait_await:
         wn = [n for n in cfg.live_nodes() if cfg.own_ast(n) is not None and any(x is wait_await[0] for x in iter_own(cfg.own_ast(n)))][0]
